@@ -262,6 +262,13 @@ class NegLab:
         ae.dimse_timeout = 5
         ae.network_timeout = 5
         cxs = [build_context(AB[c["ab"]], [TS[t] for t in c["ts"]]) for c in proposed]
+        # every second request is made of context objects that carry IDs from elsewhere (as if taken from an earlier association's
+        # accepted_contexts, placed after a new one): associate() numbers the contexts of the request itself
+        self._real_n = getattr(self, "_real_n", 0) + 1
+        if self._real_n % 2 == 0:
+            for k, cx in enumerate(cxs):
+                if k >= 1:
+                    cx.context_id = 2 * (k - 1) + 1
         ext = [build_role(AB[r["ab"]], scu_role=bool(r["scu"]), scp_role=bool(r["scp"])) for r in roles]
         captured = {}
 
